@@ -68,12 +68,24 @@ EParseWhy(e) ==
   ELSE IF ClauseModels(N, e.d.clauses) # mods THEN "parse-models-differ"
   ELSE ""
 
-(* C18: orig = dump of the problem that was printed, re = dump of the re-parsed text *)
+(* C18: orig = dump of the problem that was printed, re = dump of the re-parsed text, lex = the    *)
+(* printed text as lexed tokens.  "Well-formed text of its format" is decided by the reference      *)
+(* readers of Formats.tla on the tokens, independently of the project's own parsers, and the        *)
+(* reference reading must have the models (and costs) of the problem that was printed.              *)
+RefCnf(e) == CnfReadL(e.hdrVars, e.hdrClauses, e.lex)
+RefOpb(e) == OpbReadL(e.orig.n, e.lex)
+RefWF(e) == IF e.hdr THEN RefCnf(e).wf ELSE RefOpb(e).wf
+RefModels(e) == IF e.hdr THEN ClauseModels(e.orig.n, RefCnf(e).clauses)
+                ELSE Models(e.orig.n, AsWrittenAll(RefOpb(e).cons))
 PrintWhy(e) ==
   IF e.panic THEN "print-panic"
   ELSE IF e.reErr THEN "print-not-accepted-by-parser"
   ELSE IF e.hdr /\ (e.hdrClauses # e.nbLines \/ e.hdrVars < e.maxVar) THEN "print-header-counts"
   ELSE IF e.hdr /\ e.hdrVars # e.orig.n THEN "print-header-counts"
+  ELSE IF ~RefWF(e) THEN "print-not-well-formed"
+  ELSE IF RefModels(e) # DumpModels(e.orig) THEN "print-models-differ"
+  ELSE IF ~e.hdr /\ RefOpb(e).hasObj # e.hasObj THEN (IF e.hasObj THEN "print-objective-lost" ELSE "print-objective-invented")
+  ELSE IF ~e.hdr /\ e.hasObj /\ ~SameCost(DumpModels(e.orig), e.obj, RefOpb(e).obj) THEN "print-cost-differs"
   ELSE IF ~SameModels(e.re, DumpModels(e.orig), e.orig.n, e.strictN) THEN "print-models-differ"
   ELSE IF e.hasObj /\ DumpModels(e.orig) # {} /\ (~e.hasObjRe \/ ~ObjVarsOK(e.objRe, e.orig.n)) THEN "print-objective-lost"
   ELSE IF e.hasObj /\ ~SameCost(DumpModels(e.orig), e.obj, e.objRe) THEN "print-cost-differs"
@@ -85,6 +97,9 @@ EPrintWhy(e) ==
   IF e.panic THEN "print-panic"
   ELSE IF e.reErr THEN "print-not-accepted-by-parser"
   ELSE IF e.hdrClauses # e.nbLines \/ e.hdrVars < e.maxVar \/ e.hdrVars # e.orig.n THEN "print-header-counts"
+  ELSE IF ~CnfReadL(e.hdrVars, e.hdrClauses, e.lex).wf THEN "print-not-well-formed"
+  ELSE IF ClauseModels(e.orig.n, CnfReadL(e.hdrVars, e.hdrClauses, e.lex).clauses) # ClauseModels(e.orig.n, e.orig.clauses)
+       THEN "print-models-differ"
   ELSE IF e.re.n # e.orig.n \/ ClauseModels(e.re.n, e.re.clauses) # ClauseModels(e.orig.n, e.orig.clauses)
        THEN "print-models-differ"
   ELSE ""
